@@ -26,6 +26,16 @@ CLAIMS = {
    note="Trusted: Coq kernel, extraction, hand model of operation_registry.rs / trim_common_affixes validated on sampled specs, python model of ingestion order (oas3 PathItem::methods order), the real sanitiser for base ids. OPTIONS/TRACE operations excluded (C12 finding).",
    technique="Coq proof (induction over the ingestion fold) with CLI differential correspondence",
    design="§4 C08", engine="coq+cli"),
+ "C05": dict(
+   text="Coq theorems (closed under the global context): the router registers exactly one (axum pattern, routing function, handler) entry per operation and nothing else, for EVERY operation list (C05_route_table, a permutation proof over the BTreeMap-insertion fold); the routing function is the method's own (regenerated HttpMethodFragment table); every response variant is sent with a status covered by the token it was declared for — all 66 unit tokens by computation over the regenerated HttpStatusCode/StatusCondition tables, unlisted exact codes for all n in 100..999 (C05_status_units, C05_status_unknown; this held only after the `fix:` commit for 3XX); handler errors map to 500 (translated shape); literal parts and parameter names of every accepted path-template segment are brace-free (C05_pattern_wellformed, induction over the tokenizer). Media type of the payload is refuted (always axum::Json) and recorded as a known finding. Tie: translator + CLI server-mod read back with syn (router(), handlers, IntoResponse arms) vs the extracted model.",
+   note="Trusted: Coq kernel + vm_compute, translator, extraction, syn read-back, hand model of RouterFragment/ParsedPath. Partial: structural tier only — the compiled router is not run (axum/matchit matching, 404/405 and request extraction are library contracts not exercised; no tower oneshot in this round).",
+   technique="Coq proof (permutation over an insertion fold, tokenizer induction, finite sweeps over regenerated tables) with translator + CLI/syn correspondence",
+   design="§4 C05", engine="coq+translate+cli"),
+ "C06": dict(
+   text="Coq composition theorem over the C04 and C05 models (closed under the global context): for EVERY valid responses object and every declared non-default key with one content category, the status the generated server sends for that variant is parsed by the generated client as the variant of the same key, provided the key is exact or the range's representative status is not declared exactly (C06_response_roundtrip); the excluded classes are refuted by computed witnesses ({200,2XX}; default sent as 200) and recorded as known findings. Tie: translator (both sides' tables) + client-mod and server-mod generated by separate CLI runs, both read back with syn and composed on every response variant.",
+   note="Trusted: as C04 and C05. Partial: only the response/status leg is composed; the request legs (path, query, header, body extract∘render) are not modelled in this round and there is no loopback run.",
+   technique="Coq proof (composition of the C04 precedence theorem with the C05 status sweep) with CLI/syn correspondence of both generated sides",
+   design="§4 C06", engine="coq+translate+cli"),
 }
 
 checks = []
